@@ -72,8 +72,8 @@ pub(crate) fn schedule_event(
                 let states = threads
                     .iter()
                     .map(|(_, th)| match th.state {
-                        thread::State::Runnable { unparked: false } => 0,
-                        thread::State::Runnable { unparked: true } => 1,
+                        thread::State::Runnable if th.park_token => 1,
+                        thread::State::Runnable => 0,
                         thread::State::Blocked(..) => 2,
                         thread::State::Yield => 3,
                         thread::State::Terminated => 4,
